@@ -333,6 +333,39 @@ def inlined_body(res, fn, depth: int = 0) -> List[ast.stmt]:
     return out
 
 
+def inline_pure_calls(res, fn, e: ast.expr, depth: int = 0) -> ast.expr:
+    """A copy of *e* in which calls to package helpers outside the pinned inventory that consist of one return
+    statement are replaced by the returned expression (parameters substituted by the argument expressions)."""
+    import copy
+    from .inventory import is_known
+    from .calls import arg_for
+
+    class T(ast.NodeTransformer):
+        def visit_Call(self, n):
+            n = self.generic_visit(n)
+            if depth > 3:
+                return n
+            try:
+                ct = res.resolve_call(n, fn)
+            except Exception:
+                return n
+            if ct.unresolved or ct.ctor is not None or ct.ext or len(ct.funcs) != 1:
+                return n
+            g = ct.funcs[0]
+            if g.is_lambda or g.is_async or is_known(g, res.prog) or g is fn:
+                return n
+            body = [s_ for s_ in g.node.body if not (isinstance(s_, ast.Expr) and isinstance(s_.value, ast.Constant))]
+            if len(body) != 1 or not isinstance(body[0], ast.Return) or body[0].value is None:
+                return n
+            env = {}
+            for pn in g.params:
+                a = arg_for(n, g, pn)
+                if a is not None:
+                    env[pn] = a
+            return inline_pure_calls(res, g, subst(body[0].value, env), depth + 1)
+    return ast.fix_missing_locations(T().visit(copy.deepcopy(e)))
+
+
 def calls_through_helpers(res, fn, pred, depth: int = 0) -> List[ast.Call]:
     """Call nodes of *fn* satisfying *pred*, plus those inside helpers outside the pinned inventory that *fn* calls
     (returned as copies with the helper's parameters replaced by the caller's argument expressions)."""
